@@ -10,7 +10,7 @@ typedef struct leaf { unsigned char *buf; size_t n; int kind; int qi; int destro
 typedef struct slot { dispatch_data_t d; unsigned char *model; size_t n; int used; } slot;
 enum { D_CONCAT, D_SUBRANGE, D_MAP, D_COPY_REGION, D_APPLY, D_SIZE, D_RELEASE, D_RETAIN_RELEASE, D_CREATE, D_N };
 static const char *const dn[D_N] = { "concat", "subrange", "map", "copy_region", "apply", "size", "release", "retain+release", "create" };
-typedef struct dop { int idx, kind, a, b, dst; size_t off, len; } dop;
+typedef struct dop { int idx, kind, a, b, dst; size_t off, len; int off_sp, len_sp; } dop;   // *_sp: boundary values relative to the object's size, see D_SUBRANGE
 static struct {
 	slot shared[NSHARED]; int nshared;
 	slot priv[MAXTH13][NPRIV];
@@ -74,6 +74,10 @@ static void *data_thread(void *arg) {
 				dst->model = malloc(dst->n ? dst->n : 1); memcpy(dst->model, a->model, a->n); memcpy(dst->model + a->n, b->model, b->n);
 			} else if (op->kind == D_SUBRANGE) {
 				size_t off = op->off, len = op->len;   // may be out of range: clamped
+				// boundary values, including those where offset + length wraps around
+				switch (op->off_sp) { case 1: off = a->n; break; case 2: off = a->n ? a->n - 1 : 0; break; case 3: off = SIZE_MAX; break; case 4: off = 0; break; case 5: off = a->n + 1; break; }
+				switch (op->len_sp) { case 1: len = SIZE_MAX; break; case 2: len = SIZE_MAX - off; break; case 3: len = SIZE_MAX - off + 1; break; case 4: len = off <= a->n ? a->n - off : 0; break;
+					case 5: len = off <= a->n ? a->n - off + 1 : 1; break; case 6: len = (SIZE_MAX >> 1) + 1; break; case 7: len = SIZE_MAX - (off >> 1); break; }
 				dst->d = dispatch_data_create_subrange(a->d, off, len);
 				size_t eo = off >= a->n ? a->n : off, el = (off >= a->n) ? 0 : (len > a->n - off ? a->n - off : len);
 				dst->n = el; dst->model = malloc(el ? el : 1); memcpy(dst->model, a->model + eo, el);
@@ -91,6 +95,7 @@ static void *data_thread(void *arg) {
 			break;
 		case D_COPY_REGION: {
 			size_t loc = a->n ? op->off % (a->n + 3) : op->off % 3, off = 12345;
+			if (op->off_sp == 3) loc = SIZE_MAX; else if (op->off_sp == 5) loc = (SIZE_MAX >> 1) + 1;
 			dispatch_data_t r = dispatch_data_copy_region(a->d, loc, &off);
 			DT.observations++;
 			if (!r) h_viol("copy-region", "dispatch_data_copy_region returned NULL");
@@ -157,6 +162,8 @@ static void c13_run(void) {
 			op->kind = r < 18 ? D_CONCAT : r < 36 ? D_SUBRANGE : r < 52 ? D_MAP : r < 62 ? D_COPY_REGION : r < 72 ? D_APPLY : r < 76 ? D_SIZE : r < 84 ? D_RELEASE : r < 92 ? D_RETAIN_RELEASE : D_CREATE;
 			op->a = (int)g_n((uint32_t)(DT.nshared + NPRIV)); op->b = (int)g_n((uint32_t)(DT.nshared + NPRIV)); op->dst = (int)g_n(NPRIV);
 			op->off = g_n(700); op->len = g_chance(1, 6) ? (size_t)g_n(100000) : (size_t)g_n(400);
+			if (g_chance(1, 4)) op->off_sp = (int)g_n(6);
+			if (g_chance(1, 3)) op->len_sp = (int)g_n(8);
 			if (op->kind == D_CREATE) op->len = g_n(200);
 		}
 	}
